@@ -322,6 +322,36 @@ def roles(ctx, res):
                     n_chain += 1
                     if got != want and bad is None:
                         bad = (e, got, want, p)
+        # ... and by the object that *holds* the deferring trait of that hop
+        # (the '*' prefix style reads that object's class `__prefix__`)
+        objp_ = [q.name for q in facts.params(fname)
+                 if "has_traits_object" in (q.type or "")]
+        bad_h = None
+        n_hold = 0
+        for p in ps:
+            for e in [e for e in p.events if e[0] == "->delegate_attr_name"]:
+                if len(e[1]) < 2:
+                    continue
+                holder = _trait_holder(e[1][0], prm, objp_)
+                if holder is None:
+                    continue
+                n_hold += 1
+                if e[1][1] != holder and bad_h is None:
+                    bad_h = (e, holder, p)
+        if n_hold == 0:
+            raise AnalysisError(f"{fname}: no name-mapping call recognised")
+        res.oblige(bad_h is None, f"{fname}:chain-holder",
+                   f"{CREL}:{bad_h[0][3]}" if bad_h else "",
+                   f"{fname}: a hop of a deferral chain maps the name with "
+                   f"`{bad_h[0][1][1][:40] if bad_h else ''}` as the owning "
+                   f"object, but the deferring trait of that hop was looked "
+                   f"up on `{bad_h[1][:70] if bad_h else ''}`: with "
+                   f"prefix='*' the class `__prefix__` of the wrong object is "
+                   f"used from the second hop on, so writes / base-trait "
+                   f"lookups resolve to a different attribute than reads "
+                   f"(getattr_delegate maps each hop with its own object)",
+                   [f"{CREL}:{l}" for l in dict.fromkeys(bad_h[2].lines) if l]
+                   if bad_h else None)
         res.instance(f"{fname}:chain", facts.loc(facts.func(fname)),
                      second_hops=n_chain)
         if n_chain == 0:
@@ -404,6 +434,44 @@ def _pattern_sources(repo, mod, expr, namep):
                     and id(n) not in guarded_ids:
                 unguarded.append(mod.loc(n) if hasattr(n, "lineno") else "")
     return table, callees, unguarded
+
+
+def _top_args(text):
+    """top-level arguments of the outermost call `f(a, b, ...)`"""
+    i = text.find("(")
+    if i < 0 or not text.endswith(")"):
+        return None, []
+    inner = text[i + 1:-1]
+    out, depth, cur = [], 0, ""
+    for ch in inner:
+        if ch in "([":
+            depth += 1
+        elif ch in ")]":
+            depth -= 1
+        if ch == "," and depth == 0:
+            out.append(cur.strip())
+            cur = ""
+        else:
+            cur += ch
+    if cur.strip():
+        out.append(cur.strip())
+    return text[:i], out
+
+
+def _trait_holder(ttext, params, obj_params):
+    """the object on which the trait denoted by the symbolic text was looked
+    up: H in dict_getitem(H->[ic]trait_dict, ..), get_prefix_trait(H, ..),
+    get_trait(H, ..); the object parameter for a trait parameter"""
+    if ttext in params:
+        return obj_params[0] if obj_params else None
+    f, args = _top_args(ttext)
+    if f in ("get_prefix_trait", "get_trait") and args:
+        return args[0]
+    if f == "dict_getitem" and args:
+        for suf in ("->itrait_dict", "->ctrait_dict"):
+            if args[0].endswith(suf):
+                return args[0][:-len(suf)]
+    return None
 
 @rule("C11.listener-pairing", ["C11"],
       "the forwarding listener of a deferred trait is attached and detached "
